@@ -363,4 +363,39 @@ theorem cscToDense_denseToCsc (dt : String) (n m : Nat) (d : List Rat) (hd : d.l
       sum_pick_colEntries n m d _ _ hi, Nat.div_add_mod' k m]
     simp [List.getD_eq_getElem?_getD, h2]
 
+/-! ### reversing all axes twice -/
+
+theorem InBounds_append : ∀ (a s b t : List Nat), InBounds a s → InBounds b t →
+    InBounds (a ++ b) (s ++ t)
+  | [], [], _, _, _, hb => by simpa using hb
+  | [], _ :: _, _, _, ha, _ => by simp [InBounds] at ha
+  | _ :: _, [], _, _, ha, _ => by simp [InBounds] at ha
+  | i :: a, n :: s, b, t, ha, hb => by
+    exact ⟨ha.1, InBounds_append a s b t ha.2 hb⟩
+
+theorem InBounds_reverse : ∀ (idx s : List Nat), InBounds idx s → InBounds idx.reverse s.reverse
+  | [], [], _ => by simp [InBounds]
+  | [], _ :: _, h => by simp [InBounds] at h
+  | _ :: _, [], h => by simp [InBounds] at h
+  | i :: idx, n :: s, h => by
+    simp only [List.reverse_cons]
+    exact InBounds_append _ _ _ _ (InBounds_reverse idx s h.2) ⟨h.1, trivial⟩
+
+theorem transposeAll_involutive (dt : String) (s : List Nat) (d : List Rat)
+    (hd : d.length = prod s) :
+    (Arr.transposeAll ⟨dt, s.reverse, (Arr.transposeAll ⟨dt, s, d⟩).data⟩).data = d := by
+  simp only [Arr.transposeAll, List.reverse_reverse]
+  apply List.ext_getElem
+  · simp [hd]
+  · intro k h1 h2
+    have hk : k < prod s := by rw [← hd]; exact h2
+    have hb := unravel_inBounds s k hk
+    have hbr := InBounds_reverse _ _ hb
+    have hj := ravel_lt _ _ hbr
+    simp only [List.getElem_map, List.getElem_range]
+    rw [List.getD_eq_getElem?_getD, List.getElem?_map, List.getElem?_range hj]
+    simp only [Option.map_some, Option.getD_some]
+    rw [unravel_ravel' _ _ hbr, List.reverse_reverse, ravel_unravel' s k hk]
+    simp [List.getD_eq_getElem?_getD, h2]
+
 end HcipyVerif.Serial
